@@ -882,10 +882,17 @@ impl Scenario for Flow {
                         }
                     };
                     // C15 + ledger
+                    let run_before = led.run;
                     if let Some(v) = led.observe(&lab, parsed.lt) {
                         if ex.report(v) {
                             stop!();
                         }
+                    }
+                    if led.run >= 254 && led.run > run_before {
+                        ex.st.inc("probe.reuse_run_of_254_or_more_lockstep");
+                    }
+                    if led.max >= 254 && run_before == led.max as u32 && led.run == 0 && lab.is_addr() && led.last == Some(lab) {
+                        ex.st.inc("probe.full_label_after_max_254_255_lockstep");
                     }
                     if parsed.lt == LT_REUSE && lab.is_addr() {
                         ex.st.inc("probe.substituted_reuse");
@@ -1961,7 +1968,40 @@ pub mod gen {
         Program { scenario: "flow", cfg: cfg(slots, maxpdu, (slots + 2).min(8), 0, &ExtTable::default()), ops }
     }
 
+    /// Saturating run (one run in forty): the same address label several hundred times in a row with re-use enabled and
+    /// the maximum at 254 / 255 / a small value, so that the boundary packet (the one that has to carry the full label
+    /// again, or the wrap of the 8-bit counter) is produced with the receiver attached; a few fragmented PDUs, failing
+    /// calls and explicit re-use labels are sprinkled in, none of which may disturb the label either side remembers.
+    fn gen_c04_saturating(rng: &mut Rng) -> Program {
+        let lab = *rng.pick(&[L6A, L6B, L3A, L3B, Lab::L3([0, 0, 0])]);
+        let other = *rng.pick(&[L6B, L3B, Lab::Bcast]);
+        let mut ops = vec![Op::new("enable"), Op::new("max").u("n", *rng.pick(&[254u64, 255, 255, 254, 0, 3, 127, 128]))];
+        let n = rng.usize_in(250, 530);
+        let mut fid: u8 = rng.below(256) as u8;
+        for i in 0..n {
+            fid = fid.wrapping_add(1);
+            match rng.below(60) {
+                0 => ops.push(submit(5, rng.next(), ptype(rng), &lab, fid, rng.usize_in(0, 3), &[])), // fails: too small
+                1 => ops.push(submit(5, rng.next(), ptype(rng), &Lab::ReUse, fid, 4097, &[])),          // explicit re-use
+                2 => {
+                    ops.push(submit(rng.usize_in(30, 90), rng.next(), ptype(rng), &lab, fid, 13 + rng.usize_in(4, 20), &[]));
+                    ops.push(cont(0, 4097));
+                    ops.push(cont(0, 4097));
+                }
+                3 if i > 200 && rng.chance(1, 4) => ops.push(submit(3, rng.next(), ptype(rng), &other, fid, 4097, &[])),
+                _ => ops.push(submit(*rng.pick(&[0usize, 1, 3, 8]), rng.next(), ptype(rng), &lab, fid, 4097, &[])),
+            }
+        }
+        for _ in 0..3 {
+            ops.push(cont(0, 4097));
+        }
+        Program { scenario: "flow", cfg: cfg(8, 1100, 10, 0, &ExtTable::default()), ops }
+    }
+
     fn gen_c04(rng: &mut Rng, long_runs: bool) -> Program {
+        if rng.chance(1, 40) {
+            return gen_c04_saturating(rng);
+        }
         let n = if long_runs && rng.chance(1, 20) { rng.usize_in(300, 700) } else { rng.usize_in(3, 60) };
         let mut ops = vec![];
         // labels: the standard four, or (one run in three) a confusable set - same first three bytes, labels that
